@@ -40,6 +40,17 @@ pub enum Event {
     SweepDone,
 }
 
+/// Raw state of the frequency sketch: row seeds, counters per row, packed rows (two 4-bit counters
+/// per byte), accesses recorded since the last ageing and the ageing threshold.
+#[derive(Clone, Debug, PartialEq)]
+pub struct Sketch {
+    pub seeds: Vec<u64>,
+    pub total_counters: u64,
+    pub rows: Vec<Vec<u8>>,
+    pub total_increments: u64,
+    pub reset_counters_at: u64,
+}
+
 thread_local! {
     static SINK: RefCell<Option<Box<dyn FnMut(Event)>>> = RefCell::new(None);
 }
